@@ -260,11 +260,12 @@ Definition corr (c : case) : Z :=
       let raw := send m path hs b in
       let sv := serve run_route (mux_of rt) raw in
       let '(c', cs') := client_parse (served_bytes sv (sv_headers sv)) in
+      (* the request is visible to the driver only through the handler's arguments *)
       b2z (match sv_invoked sv with
            | None => (invoked =? -1) && (ninv =? 0)
-           | Some ir => (invoked =? fst ir) && (ninv =? 1)
+           | Some ir => (invoked =? fst ir) && (ninv =? 1) && req_eq seen (sv_request sv)
            end
-           && req_eq seen (sv_request sv) && req_eq cli c' && (cst =? cs') && beq result (body c'))
+           && req_eq cli c' && (cst =? cs') && beq result (body c'))
   | CWsE2E key digest acc c2s s2c srv_got cli_got =>
       let up := flat_map (fun kp => if isnil (fst kp) then ws_encode (snd kp)
                                     else ws_encode_masked (fst kp) (snd kp)) c2s in
